@@ -386,7 +386,7 @@ class OverSamplerUniform(AbstractOverSampler):
         pixel_area = self.mask.pixel_scales[0] * self.mask.pixel_scales[1]
 
         for i in range(self.sub_size.shape[0]):
-            for j in range(self.sub_size[i] ** 2):
+            for j in range(int(self.sub_size[i]) ** 2):
                 sub_pixel_areas[k] = pixel_area / self.sub_size[i] ** 2
                 k += 1
 
@@ -502,7 +502,7 @@ class OverSamplerUniform(AbstractOverSampler):
             print(derive_indexes_2d.sub_mask_native_for_sub_mask_slim)
         """
         return over_sample_util.native_sub_index_for_slim_sub_index_2d_from(
-            mask_2d=self.mask.array, sub_size=np.array(self.sub_size)
+            mask_2d=self.mask.array, sub_size=np.array(self.sub_size).astype("int")
         ).astype("int")
 
     @cached_property
@@ -555,5 +555,5 @@ class OverSamplerUniform(AbstractOverSampler):
             print(derive_indexes_2d.slim_for_sub_slim)
         """
         return over_sample_util.slim_index_for_sub_slim_index_via_mask_2d_from(
-            mask_2d=np.array(self.mask), sub_size=np.array(self.sub_size)
+            mask_2d=np.array(self.mask), sub_size=np.array(self.sub_size).astype("int")
         ).astype("int")
